@@ -255,6 +255,7 @@ def expand(hist):
     for ev in hist[1:]:
         do_request(state, ev[0], ev[1])
     snap = _snapshot(state) if len(hist) > 1 else _prep(lib)["snap"]
+    confirmed = False
     for kind in kinds_for(lib):
         for cls in classes_of(lib):
             if snap is not None:
@@ -266,6 +267,24 @@ def expand(hist):
             got = do_request(tree, kind, cls)
             exp = fresh(lib, kind, cls)
             viol = []
+            if got != exp and not confirmed:
+                # the first difference seen from this state is re-established with real parses only
+                # (history replayed on a parsed tree, reference from another parsed tree)
+                real = _parse(lib)
+                for ev in hist[1:]:
+                    do_request(real, ev[0], ev[1])
+                got_real, exp_real = do_request(real, kind, cls), do_request(_parse(lib), kind, cls)
+                if (got_real, exp_real) != (got, exp):
+                    viol.append(
+                        (
+                            "harness:snapshot-disagrees-with-parse",
+                            "library %s: after %r, %s(%s): snapshots give %s (fresh %s), real parses give %s (fresh %s)"
+                            % (lib, [list(e) for e in hist[1:]], kind, cls, _short(got), _short(exp), _short(got_real), _short(exp_real)),
+                        )
+                    )
+                    got, exp = got_real, exp_real
+                else:
+                    confirmed = True
             if got != exp:
                 prev = ">".join(e[0] for e in hist[1:]) or "-"
                 viol.append(
